@@ -4,7 +4,7 @@ exactly one snapshot), latest unit / description per (kind, name); recorders ins
 threads never show each other's metrics.
 Spec: specs/DebugSnapshot/DebugSnapshot.tla (one action per public call; mechanism mirrors debugging.rs, the
 property is stated against reference (ghost) state, and once more over the call history in SimDebugSnapshot)."""
-import json, os
+import json, os, re
 import vlib
 
 SPEC = "DebugSnapshot"
@@ -37,6 +37,22 @@ def exempt_for(kinds):
     if '"g"' not in kinds: ex.add("GaugeAny")
     if '"h"' not in kinds: ex.add("RecordAny")
     return ex
+
+
+_COV = re.compile(r"^<(\w+) line \d+, col \d+ to line \d+, col \d+ of module (\w+)(?: \([\d ]+\))?>: (\d+):(\d+)")
+ACTIONS = ("DescribeAny", "RegisterAny", "CounterAny", "GaugeAny", "RecordAny", "SnapshotAny")
+
+
+def action_coverage(r):
+    """TLC prints the sub-actions of Next as `<Name line .. of module M (l c l c)>: distinct:generated`; add them
+    to the parsed coverage so that expect_mc_ok's vacuity check sees every action (an action that never produced a
+    transition fails the check)."""
+    cov = {a: 0 for a in ACTIONS}
+    for line in r["out"].splitlines():
+        m = _COV.match(line)
+        if m and m.group(1) in cov:
+            cov[m.group(1)] += int(m.group(4))
+    r["coverage"].update(cov)
 
 
 def programs_from(out):
@@ -85,6 +101,7 @@ def run(chk):
     for name, c in mcs:
         cfg = write_cfg(name, "Spec", c, INVS)
         r = vlib.tlc_mc(SPEC, "MCDebugSnapshot", cfg, workers=8, timeout=3000 if thorough else 900, tag=name)
+        action_coverage(r)
         if not chk.expect_mc_ok(r, "DebugSnapshot/" + name, vacuity_exempt=exempt_for(c["Kinds"])):
             return
         chk.log("TLC %s: %d distinct states, %d generated, depth %d, %.0fs" % (name, r["distinct"], r["generated"], r["depth"], r["wall"]))
@@ -103,7 +120,7 @@ def run(chk):
     rc, out, summ = vlib.harness("c19", ["record", "--runs", nrec, "--out", tr], env=env)
     if rc != 0 or not summ:
         chk.tool_error("c19 record failed", out)
-    n = vlib.validate_concat(chk, SPEC, "TraceDebugSnapshot", tcfg, tr, "recorded random histories", timeout=3000)
+    n = vlib.validate_concat(chk, SPEC, "TraceDebugSnapshot", tcfg, tr, "recorded random histories", max_rounds=3, timeout=3000)
     chk.cov["traces_validated_against_impl"] += n
     chk.cov["distinct_nontrivial"] += summ.get("distinct_programs", 0)
     chk.notes["record"] = summ
@@ -141,7 +158,7 @@ def run(chk):
                 chk.cov["samples"].append({"source": "TLC history " + name, "first_calls": behs[0]["ops"][:6]})
     tr2 = chk.path("replay_sim.ndjson")
     s2 = run_harness_programs(chk, progs, tr2, "TLC-generated random histories", env)
-    n2 = vlib.validate_concat(chk, SPEC, "TraceDebugSnapshot", tcfg, tr2, "replayed TLC histories", timeout=3000)
+    n2 = vlib.validate_concat(chk, SPEC, "TraceDebugSnapshot", tcfg, tr2, "replayed TLC histories", max_rounds=3, timeout=3000)
     chk.cov["traces_validated_against_impl"] += n2
     chk.notes["replay_sim"] = {k: v for k, v in s2.items() if k != "mismatch_at"}
     chk.log("replayed %d TLC random histories: %d snapshots compared, %d mismatches" % (nsim, s2["snapshots_compared_with_tlc"], s2["mismatches"]))
